@@ -147,6 +147,19 @@ CLAIMED["C15"] = dict(
     technique="Lean 4 theorems over an oracle I/O model + complete fault-point enumeration (differential for L1 formats, predicate on implementation transcripts elsewhere)",
     design_ref="DESIGN.md §7 C15")
 
+CLAIMED["C18"] = dict(
+    text="Proof (Lean 4) over SfModel.Handle's PEAK bookkeeping (float32/double64_peak_update bug for bug: strict < within a call, strict > across calls, "
+         "`float fmaxval`, one update per staging-buffer chunk) iterated by Sf.Peak.run: peak_is_max_first — for every FLOAT/DOUBLE file, channel count and sequence of "
+         "calls outside two defect classes the stored (value, position) per channel is (max |x|, first frame attaining it); peak_partition_independent; the full "
+         "statements are refuted with witnesses confirmed on the real library (KF-C18-DOUBLE-NARROW: running maximum kept in a C float; KF-C18-STAGING-MISALIGN: per-chunk "
+         "update restarts channel counting). CALC: the scan returns the true maximum for any buffering (calc_scan_is_max, calc_scan_buffering), the read loop and the "
+         "seek back preserve file, flags and position (calc_loop_keeps_file, calc_seek_back). Partial: the assembled stepCalc restore theorem and the per-channel scan theorem "
+         "are not proved (covered by correspondence); PEAK chunk (de)serialisation for AIFF/CAF is modelled and tied by correspondence only. Sampled correspondence: PEAK containers x "
+         "float/double x 1-6 channels x shapes x caller types x partitions against sfmodel c18 peak and exact maxima; CALC on every writable format.",
+    technique="Lean 4 theorems over a hand-written model + sampled correspondence (sfmodel c18 vs sfh under ASan) + property predicate on the implementation transcript with exact bit-pattern arithmetic",
+    design_ref="DESIGN.md §7 C18")
+
+
 def main():
     checks = []
     for p in PROPS:
